@@ -23,10 +23,13 @@ ASSUMPTIONS = ["priorities are Python ints fixed at registration", "most systems
 POOL = 7
 BIG = sys.maxsize + 1
 PRIOS = [-1, -3, -2, 0, 1, 2, 3, 10 ** 6, -10 ** 6, BIG, -BIG]
+# distinct integers that are equal as floats (beyond 2**53): the order is by VALUE, not by a rounded value
+CLUSTER = [2 ** 60, 2 ** 60 + 1, 2 ** 60 + 2, sys.maxsize, sys.maxsize - 1, sys.maxsize - 2, -2 ** 60, -2 ** 60 - 1, 2 ** 53, 2 ** 53 + 1, 10 ** 400, -10 ** 400]
 
 
 def _op():
-    prio = wone_of(st.sampled_from([-1, 0, 1]), st.sampled_from(PRIOS), st.integers(-4, 4))
+    prio = wone_of(st.sampled_from([-1, 0, 1]), st.sampled_from([-1, 0, 1]), st.sampled_from(PRIOS), st.sampled_from(PRIOS),
+                   st.integers(-4, 4), st.integers(-4, 4), st.sampled_from(CLUSTER))
     add = st.fixed_dictionaries({"op": st.just("add"), "id": st.integers(0, POOL - 1), "prio": prio,
                                  "kind": st.sampled_from(["sys", "sys", "sys", "coll", "colldef", "falsy"]),
                                  "np": st.sampled_from([None, None, None, None, "u8", "i8", "i64", "u64", "u16"]),
